@@ -43,6 +43,15 @@ fn kernel_ready(fd: i32, want_in: bool) -> bool {
 }
 
 /// turn a stranded verdict into violation / inconclusive using the kernel's view of the open calls
+/// the wait for a coroutine whose `cancel()` has returned: it needs nothing from the transport to end, so a quiescent
+/// runtime in which it is still suspended is a lost cancel whatever the kernel says about its socket
+fn cancelled_must_end(r: Res) -> Res {
+    match r {
+        Err(Fail::Stranded(m)) => Err(Fail::Stranded(format!("cancel() had returned but the cancelled coroutine never ended (no Cancel error, nothing it owns was released); {}", m))),
+        o => o,
+    }
+}
+
 fn io_verdict(x: &Exec, r: Res) -> Res {
     match r {
         Err(Fail::Stranded(msg)) => {
@@ -747,7 +756,11 @@ fn iot(x: &mut Exec) -> Res {
 
 // ------------------------------------------------------------------------------------ C18 / C09 cancel of blocked I/O
 fn iocan(x: &mut Exec) -> Res {
-    let kind = x.rng.below(3); // 0 stream read, 1 accept, 2 udp recv_from
+    // 0 unix stream read, 1 tcp accept, 2 udp recv_from, 3 udp recv (SocketRead), 4 tcp stream read, 5 unix datagram
+    // recv_from, 6 unix accept: one per `subscribe` that registers with the cancel data. Writes / sends do not (a
+    // coroutine blocked in write() against a full buffer is not cancellable in may, and C09/C18 do not list it: a first
+    // version of this scenario that demanded it was asking for more than the property states)
+    let kind = if x.rng.chance(1, 8) { 2 } else { x.rng.below(7) };
     let err = Arc::new(std::sync::Mutex::new(None::<String>));
     let grave: Grave = Default::default();
     let reg = DropReg::new(2);
@@ -775,6 +788,74 @@ fn iocan(x: &mut Exec) -> Res {
             let reg = reg.clone();
             x.spawn_co("target", move |act| {
                 let _t = Tracked::new(&reg, 0);
+                act.call("accept", l.as_raw_fd() as u64);
+                let _ = l.accept();
+                act.ret("accept", 0, 0);
+                loop {
+                    coroutine::park();
+                }
+            })
+        }
+        3 => {
+            peer = None;
+            let s = UdpSocket::bind(lo0()).map_err(|e| Fail::Inconclusive(format!("bind: {}", e)))?;
+            s.connect(lo0().replace(":0", ":9")).ok();
+            let reg = reg.clone();
+            x.spawn_co("target", move |act| {
+                let _t = Tracked::new(&reg, 0);
+                let mut buf = [0u8; 8];
+                act.call("recv", s.as_raw_fd() as u64);
+                let _ = s.recv(&mut buf);
+                act.ret("recv", 0, 0);
+                loop {
+                    coroutine::park();
+                }
+            })
+        }
+        4 => {
+            peer = None;
+            let (a, b) = tcp_pair().map_err(|e| Fail::Inconclusive(format!("tcp_pair: {}", e)))?;
+            grave.lock().unwrap().push(Box::new(a));
+            let reg = reg.clone();
+            x.spawn_co("target", move |act| {
+                let _t = Tracked::new(&reg, 0);
+                let mut b = b;
+                let mut buf = [0u8; 8];
+                act.call("read", b.as_raw_fd() as u64);
+                let _ = b.read(&mut buf);
+                act.ret("read", 0, 0);
+                loop {
+                    coroutine::park();
+                }
+            })
+        }
+        5 => {
+            peer = None;
+            let (a, b) = may::os::unix::net::UnixDatagram::pair().map_err(|e| Fail::Inconclusive(format!("pair: {}", e)))?;
+            grave.lock().unwrap().push(Box::new(a));
+            let reg = reg.clone();
+            x.spawn_co("target", move |act| {
+                let _t = Tracked::new(&reg, 0);
+                let mut buf = [0u8; 8];
+                act.call("recv_from", b.as_raw_fd() as u64);
+                let _ = b.recv_from(&mut buf);
+                act.ret("recv_from", 0, 0);
+                loop {
+                    coroutine::park();
+                }
+            })
+        }
+        6 => {
+            peer = None;
+            let path = std::env::temp_dir().join(format!("mayverif-iocan-{}-{}.sock", std::process::id(), x.seed));
+            let _ = std::fs::remove_file(&path);
+            let l = may::os::unix::net::UnixListener::bind(&path).map_err(|e| Fail::Inconclusive(format!("bind: {}", e)))?;
+            let reg = reg.clone();
+            x.spawn_co("target", move |act| {
+                let _t = Tracked::new(&reg, 0);
+                let _rm = OnDrop(Some(move || {
+                    let _ = std::fs::remove_file(&path);
+                }));
                 act.call("accept", l.as_raw_fd() as u64);
                 let _ = l.accept();
                 act.ret("accept", 0, 0);
@@ -817,12 +898,12 @@ fn iocan(x: &mut Exec) -> Res {
         });
     }
     let at = x.rng.below(900);
-    x.desc = format!("cancel a coroutine blocked in {} (cancel at FIRE or <= {}us) beside a bystander transfer", ["stream read", "tcp accept", "udp recv_from"][kind as usize], at);
+    x.desc = format!("cancel a coroutine blocked in {} (cancel at FIRE or <= {}us) beside a bystander transfer", ["unix stream read", "tcp accept", "udp recv_from", "udp recv", "tcp stream read", "unix datagram recv_from", "unix accept"][kind as usize], at);
     wait_fire(at);
     unsafe { target.coroutine().cancel() };
     let t2 = &target;
     let r = x.wait_cond(&|| t2.is_done());
-    io_verdict(x, r)?;
+    cancelled_must_end(r)?;
     match target.join() {
         Err(e) if is_cancel_panic(&e) => {}
         Err(_) => return viol("cancel of blocked I/O: join() reported a non-Cancel panic"),
@@ -1067,7 +1148,7 @@ fn iocant(x: &mut Exec) -> Res {
     {
         let t2 = &target;
         let r = x.wait_cond(&|| t2.is_done());
-        io_verdict(x, r)?;
+        cancelled_must_end(r)?;
     }
     match target.join() {
         Err(e) if is_cancel_panic(&e) => {}
